@@ -79,6 +79,14 @@ def closed(t=None):
     add("triple", A[i, j] * B[j, k] * A[k, i])
     add("fixed and free", A[0, i] * u[i] + A[i, 1] * v[i])
     add("identity", C.Identity(2)[i, j] * A[i, j])
+    # one component tensor indexed several times with different multi-indices in the same expression (caches keyed per substitution)
+    ctv = as_tensor(u[i] * f + v[i], (i,))
+    ctm = as_tensor(u[i] * v[j] + A[j, i], (i, j))
+    add("same ct indexed twice, free indices", ctv[j] * A[j, k] * ctv[k])
+    add("same ct indexed twice, fixed indices", ctv[0] * ctv[1])
+    add("same ct matrix [0,1] - [1,0]", ctm[0, 1] - ctm[1, 0])
+    add("same ct matrix [i,j] [j,i]", ctm[k, l] * ctm[l, k])
+    add("same ct fixed and free", ctv[0] * ctv[k] * u[k])
     return [x for x in out if x is not None and x[1] is not None]
 
 
